@@ -1212,10 +1212,20 @@ private:
                         (init_states(m_states));
         // block immediate handling of events generated by the entry behaviours
         m_event_processing = true;
-        // call on_entry on this SM
-        (static_cast<Derived*>(this))->on_entry(fsm_initial_event(),*this);
-        ::boost::mpl::for_each<initial_states, boost::msm::wrap<mpl::placeholders::_1> >
-            (call_init<fsm_initial_event>(fsm_initial_event(),this));
+        BOOST_TRY
+        {
+            // call on_entry on this SM
+            (static_cast<Derived*>(this))->on_entry(fsm_initial_event(),*this);
+            ::boost::mpl::for_each<initial_states, boost::msm::wrap<mpl::placeholders::_1> >
+                (call_init<fsm_initial_event>(fsm_initial_event(),this));
+        }
+        BOOST_CATCH (...)
+        {
+            // do not stay blocked if an entry behaviour throws
+            m_event_processing = false;
+            BOOST_RETHROW
+        }
+        BOOST_CATCH_END
         m_event_processing = false;
         // give a chance to handle an anonymous (eventless) transition
         handle_eventless_transitions_helper<library_sm> eventless_helper(this,true);
@@ -1233,10 +1243,20 @@ private:
                         (init_states(m_states));
         // block immediate handling of events generated by the entry behaviours
         m_event_processing = true;
-        // call on_entry on this SM
-        (static_cast<Derived*>(this))->on_entry(incomingEvent,*this);
-        ::boost::mpl::for_each<initial_states, boost::msm::wrap<mpl::placeholders::_1> >
-            (call_init<Event>(incomingEvent,this));
+        BOOST_TRY
+        {
+            // call on_entry on this SM
+            (static_cast<Derived*>(this))->on_entry(incomingEvent,*this);
+            ::boost::mpl::for_each<initial_states, boost::msm::wrap<mpl::placeholders::_1> >
+                (call_init<Event>(incomingEvent,this));
+        }
+        BOOST_CATCH (...)
+        {
+            // do not stay blocked if an entry behaviour throws
+            m_event_processing = false;
+            BOOST_RETHROW
+        }
+        BOOST_CATCH_END
         m_event_processing = false;
         // give a chance to handle an anonymous (eventless) transition
         handle_eventless_transitions_helper<library_sm> eventless_helper(this,true);
@@ -2811,8 +2831,18 @@ BOOST_PP_REPEAT(BOOST_PP_ADD(BOOST_MSM_VISITOR_ARG_SIZE,1), MSM_VISITOR_ARGS_EXE
         region_entry_exit_helper< ::boost::mpl::int_<0> >::do_entry(this,incomingEvent);
         // block immediate handling of events
         m_event_processing = true;
-        // if the event is generating a direct entry/fork, set the current state(s) to the direct state(s)
-        direct_event_start_helper(this)(incomingEvent,fsm);
+        BOOST_TRY
+        {
+            // if the event is generating a direct entry/fork, set the current state(s) to the direct state(s)
+            direct_event_start_helper(this)(incomingEvent,fsm);
+        }
+        BOOST_CATCH (...)
+        {
+            // do not stay blocked if an entry behaviour throws
+            m_event_processing = false;
+            BOOST_RETHROW
+        }
+        BOOST_CATCH_END
         // handle messages which were generated and blocked in the init calls
         m_event_processing = false;
         // give a chance to handle an anonymous (eventless) transition,
